@@ -288,6 +288,17 @@ def build_stdp_layer(case):
     return layer, conn, neuron
 
 
+def reward(s, case):
+    """the reward argument of a three-factor trainer call: per-sample tensor, python float or (case["signal_numpy"]) a
+    numpy scalar"""
+    if isinstance(s, list):
+        return torch.tensor(s, dtype=torch.float64)
+    if case.get("signal_numpy"):
+        import numpy as np
+        return np.float64(s)
+    return float(s)
+
+
 def run_stdp_group(defaults, cells):
     """ONE trainer object built from `defaults` (trainer, mode, hp, delayed, reduction) driving every cell, each registered
     with its own keyword overrides; all layers are stepped, then trainer(...) is called once per step (three-factor: with
@@ -316,9 +327,7 @@ def run_stdp_group(defaults, cells):
         if sig is None:
             trainer()
         else:
-            s = sig[t]
-            s = torch.tensor(s, dtype=torch.float64) if isinstance(s, list) else float(s)
-            trainer(s, cells[0].get("scale", 1.0))
+            trainer(reward(sig[t], cells[0]), cells[0].get("scale", 1.0))
         for j, (case, (layer, conn, neuron, acc, tap)) in enumerate(zip(cells, built)):
             newp, newn = tap.new(conn.weight)
             outs[j]["steps"].append({"pos": newp, "neg": newn, "apos": flat_like(acc.pos, conn.weight),
@@ -391,9 +400,7 @@ def run_stdp_biclique(defaults, cells):
         if sig is None:
             trainer()
         else:
-            s = sig[t]
-            s = torch.tensor(s, dtype=torch.float64) if isinstance(s, list) else float(s)
-            trainer(s, cells[0].get("scale", 1.0))
+            trainer(reward(sig[t], cells[0]), cells[0].get("scale", 1.0))
         for i, conn in enumerate(conns):
             acc = conn.updater.weight
             sp, sn, kp, kn = new_sum(acc, marks[i][0], marks[i][1], conn.weight)
